@@ -46,6 +46,8 @@ var c13lines = []c13line{
 	{name: "ip-null", pairs: `{"ip":null,"port":80}`, addrs: `{"ip":null}`, cause: "address", causeAddrs: "address"},
 	{name: "bad-address", pairs: `{"ip":"10.0.1.300","port":80}`, addrs: `{"ip":"10.0.1.300"}`, cause: "address", causeAddrs: "address"},
 	{name: "ipv6-address", pairs: `{"ip":"2001:db8::1","port":80}`, addrs: `{"ip":"2001:db8::1"}`, cause: "address", causeAddrs: "address"},
+	{name: "zoned-ipv6", pairs: `{"ip":"fe80::1%eth0","port":80}`, addrs: `{"ip":"fe80::1%eth0"}`, cause: "address", causeAddrs: "address"},
+	{name: "zoned-mapped-ipv4", pairs: `{"ip":"::ffff:10.0.3.9%eth0","port":80}`, addrs: `{"ip":"::ffff:10.0.3.9%eth0"}`, cause: "address", causeAddrs: "address"},
 	{name: "port-0", pairs: `{"ip":"10.0.3.3","port":0}`, addrs: "", cause: "port"},
 	{name: "port-65536", pairs: `{"ip":"10.0.3.3","port":65536}`, addrs: "", cause: "port"},
 	{name: "port-negative", pairs: `{"ip":"10.0.3.3","port":-1}`, addrs: "", cause: "port"},
